@@ -58,6 +58,111 @@ mod cactus {
     }
 }
 
+mod big {
+    //! C15: group teardown of any size on a small fixed stack, with linear trace counters.
+    use cactusref::{Adopt, Rc};
+    use std::cell::RefCell;
+    use std::sync::atomic::{AtomicUsize, Ordering::Relaxed};
+
+    static DESTROYED: AtomicUsize = AtomicUsize::new(0);
+
+    struct Big {
+        out: RefCell<Vec<Rc<Big>>>,
+    }
+    impl Drop for Big {
+        fn drop(&mut self) {
+            DESTROYED.fetch_add(1, Relaxed);
+        }
+    }
+
+    /// `hs[i]` points at a handle to object `i` that lives inside its owner's `out` vector (or at
+    /// the single outside handle for object 0); the vectors are pre-sized so they never move.
+    unsafe fn edge(hs: &[*const Rc<Big>], a: usize, b: usize) {
+        let h = Rc::clone(&*hs[b]);
+        Rc::adopt_unchecked(&*hs[a], &h);
+        (&(*hs[a])).out.borrow_mut().push(h);
+    }
+
+    pub fn run(shape: &str, n: usize) -> String {
+        let cap = if shape == "clique" { n + 2 } else { 8 };
+        let mk = || Rc::new(Big { out: RefCell::new(Vec::with_capacity(cap)) });
+        // the program holds exactly one outside handle (to object 0); object i+1 is created and
+        // moved straight into object i, so no handle is ever dropped while building
+        let first = mk();
+        let mut hs: Vec<*const Rc<Big>> = Vec::with_capacity(n);
+        hs.push(&first as *const Rc<Big>);
+        let mut adoptions = 0usize;
+        unsafe {
+            for i in 1..n {
+                let h = mk();
+                Rc::adopt_unchecked(&*hs[i - 1], &h);
+                let mut out = (&(*hs[i - 1])).out.borrow_mut();
+                out.push(h);
+                let p: *const Rc<Big> = out.last().unwrap();
+                drop(out);
+                hs.push(p);
+                adoptions += 1;
+            }
+            edge(&hs, n - 1, 0);
+            adoptions += 1;
+            match shape {
+                "ring" => {}
+                "chords" => {
+                    for i in 0..n {
+                        edge(&hs, i, (i + 7) % n);
+                        edge(&hs, i, (i * 31 + 5) % n);
+                        adoptions += 2;
+                    }
+                }
+                "selfmix" => {
+                    for i in 0..n {
+                        if i % 3 == 0 {
+                            edge(&hs, i, i);
+                            adoptions += 1;
+                        }
+                        if i % 5 == 0 {
+                            Rc::adopt_unchecked(&*hs[i], &*hs[i]);
+                        }
+                    }
+                }
+                "clique" => {
+                    for i in 0..n {
+                        for j in 0..n {
+                            if i != j && !(j == i + 1) && !(i == n - 1 && j == 0) {
+                                edge(&hs, i, j);
+                                adoptions += 1;
+                            }
+                        }
+                    }
+                }
+                _ => return format!("bad shape {}", shape),
+            }
+        }
+        let _ = cactusref::verif::take_trace_counters();
+        DESTROYED.store(0, Relaxed);
+        let t0 = std::time::Instant::now();
+        // dropping the only outside handle orphans the group
+        let (calls0, popped0, visited0, scanned0) = cactusref::verif::take_trace_counters();
+        let before_last = DESTROYED.load(Relaxed);
+        drop(first);
+        let (calls, popped, visited, scanned) = cactusref::verif::take_trace_counters();
+        let secs = t0.elapsed().as_secs_f64();
+        let d = DESTROYED.load(Relaxed);
+        let _ = (calls0, popped0, visited0, scanned0);
+        let ok = d == n
+            && before_last == 0
+            && calls == 1
+            && visited == n
+            && popped <= 1 + adoptions
+            && scanned <= 2 * adoptions + n;
+        format!(
+            "{} destroyed={} of {} before_last={} calls={} visited={} popped={} scanned={} adoptions={} secs={:.2}",
+            if ok { "ok" } else { "FAIL" },
+            d, n, before_last, calls, visited, popped, scanned, adoptions, secs
+        )
+    }
+}
+
 mod stdrc {
     use std::rc::{Rc, Weak};
     pub const HAS_HOOKS: bool = false;
@@ -88,6 +193,25 @@ mod stdrc {
 fn main() {
     let args: Vec<String> = std::env::args().collect();
     let mode = args.get(1).map(String::as_str).unwrap_or("cactus");
+    if mode == "bigring" {
+        let shape = args.get(2).cloned().unwrap_or_else(|| "ring".into());
+        let n: usize = args.get(3).and_then(|x| x.parse().ok()).unwrap_or(1000);
+        alloc_track::TRACK.store(false, Relaxed);
+        let th = std::thread::Builder::new()
+            .stack_size(128 * 1024)
+            .spawn(move || big::run(&shape, n))
+            .unwrap();
+        match th.join() {
+            Ok(line) => {
+                println!("{}", line);
+                std::process::exit(if line.starts_with("ok") { 0 } else { 1 });
+            }
+            Err(_) => {
+                println!("FAIL thread panicked");
+                std::process::exit(1);
+            }
+        }
+    }
     let cleanup = !args.iter().any(|a| a == "--no-cleanup");
     std::panic::set_hook(Box::new(|_| {}));
     // learn the RcBox block geometry from one probe allocation
